@@ -240,6 +240,8 @@ func (c *VCtx) specSort(sc *Scope, ty string) (Sort, types.Type) {
 		return SSlice, types.NewSlice(types.Typ[types.Uint8])
 	case "[]string":
 		return SSlice, types.NewSlice(types.Typ[types.String])
+	case "[][]byte":
+		return SSlice, types.NewSlice(types.NewSlice(types.Typ[types.Uint8]))
 	}
 	if strings.HasPrefix(ty, "set[") {
 		k, _ := c.specSort(sc, ty[4:len(ty)-1])
@@ -597,6 +599,9 @@ func (c *VCtx) translateCall(sc *Scope, x *ECall) Val {
 	case "cap":
 		return SlCap(arg(0))
 	case "arr":
+		if l, ok := c.translate(sc, x.Args[0]).(*Loc); ok && l.Kind == "arr" {
+			return l.Base
+		}
 		return SlArr(arg(0))
 	case "off":
 		return SlOff(arg(0))
@@ -611,6 +616,14 @@ func (c *VCtx) translateCall(sc *Scope, x *ECall) Val {
 	case "calls":
 		h := c.heap(st, "G:calls", ArrSort(SRef, SInt))
 		return Select(h, arg(0))
+	case "spawned":
+		// spawned(f): number of goroutines started with function f (by contract key)
+		id, ok := x.Args[0].(*EIdent)
+		if !ok {
+			unsup("spawned needs a function name")
+		}
+		h := c.heap(st, "G:calls", ArrSort(SRef, SInt))
+		return Select(h, c.declare("fnid!"+id.Name, SRef))
 	case "datalen":
 		return c.dataLen(arg(0))
 	case "cancelOf":
@@ -668,9 +681,48 @@ func (c *VCtx) translateCall(sc *Scope, x *ECall) Val {
 	case "heap":
 		// heap("name") gives raw access to a ghost heap
 		unsup("heap() not supported")
-	case "byteat":
-		// byteat(x, k): byte k (little endian) of integer x
-		return T(SInt, fmt.Sprintf("(mod (div %s (pow2 (* 8 %s))) 256)", arg(0).S, arg(1).S))
+	case "hstate":
+		h := c.heap(st, "G:hstate", ArrSort(SRef, SInt))
+		return Select(h, arg(0))
+	case "heapid":
+		// an abstract identifier of the current contents of all byte slices and slices of slices
+		hb := c.heap(st, elemHeapName(SInt), ArrSort(SRef, ArrSort(SInt, SInt)))
+		hs := c.heap(st, elemHeapName(SSlice), ArrSort(SRef, ArrSort(SInt, SSlice)))
+		fn := c.declareFun("hid", []Sort{hb.Sort, hs.Sort}, SInt)
+		return T(SInt, fmt.Sprintf("(%s %s %s)", fn, hb.S, hs.S))
+	case "hinit":
+		return c.declare("hinit", SInt)
+	case "absorb":
+		fn := c.declareFun("absorb", []Sort{SInt, SInt}, SInt)
+		return T(SInt, fmt.Sprintf("(%s %s %s)", fn, arg(0).S, arg(1).S))
+	case "canon":
+		// canon(slice of bytes): abstract value of the byte sequence
+		a := arg(0)
+		if a.Sort == SStr {
+			return c.canon(StrData(a), IntLit(0), StrLen(a))
+		}
+		h := c.heap(st, elemHeapName(SInt), ArrSort(SRef, ArrSort(SInt, SInt)))
+		return c.canon(Select(h, SlArr(a)), SlOff(a), SlLen(a))
+	case "digest":
+		fn := c.declareFun("digest", []Sort{SInt}, ArrSort(SInt, SInt))
+		return T(ArrSort(SInt, SInt), fmt.Sprintf("(%s %s)", fn, arg(0).S))
+	case "srcseed":
+		fn := c.declareFun("srcseed", []Sort{SRef}, ArrSort(SInt, SInt))
+		return T(ArrSort(SInt, SInt), fmt.Sprintf("(%s %s)", fn, arg(0).S))
+	case "digestlen":
+		return T(SInt, c.declareFun("digestlen", nil, SInt))
+	case "cast":
+		// cast(x, T): view an interface value as *T (no check; use together with a dynamic-type fact)
+		id, ok := x.Args[1].(*EIdent)
+		if !ok {
+			unsup("cast needs a type name")
+		}
+		_, gt := c.specSort(sc, "*"+id.Name)
+		return c.typed(TG(SRef, gt, arg(0).S), gt)
+	case "shr":
+		return T(SInt, app("shr", arg(0), arg(1)))
+	case "pow2":
+		return T(SInt, app("pow2", arg(0)))
 	}
 	if sf := c.specFunc(sc.pkg, x.Fn); sf != nil {
 		var args []*Term
@@ -693,4 +745,9 @@ func (c *VCtx) ctxDone(ctx *Term) *Term {
 		c.facts0(T(SBool, fmt.Sprintf("(forall ((x Ref)) (! (not (= (%s x) null)) :pattern ((%s x))))", fn, fn)))
 	}
 	return T(SRef, fmt.Sprintf("(%s %s)", fn, ctx.S))
+}
+
+func (c *VCtx) canon(data, off, ln *Term) *Term {
+	fn := c.declareFun("canon", []Sort{ArrSort(SInt, SInt), SInt, SInt}, SInt)
+	return T(SInt, fmt.Sprintf("(%s %s %s %s)", fn, data.S, off.S, ln.S))
 }
